@@ -36,6 +36,7 @@ MY_CHECKS = {"resume-without-progress", "trace-mismatch", "state-after-command",
              "clock-backwards"}
 MODES = ["start", "bounded", "steps"]
 POS = ["before", "middle", "after"]
+POS_RANDOM = ["before", "middle", "after", "signature"]
 
 
 def init_worker():
@@ -50,6 +51,15 @@ def with_faults(prog, plan, switch=None):
         p["events"][str(switch[0])].insert(0, ["strategy", switch[1]])
     for eid, pos, exc in plan:
         al = p["events"][str(eid)]
+        if pos == "signature":
+            # the call of the handler itself fails (keyword mismatch); not for events
+            # that are pre-built objects
+            lists = [p["roots"], p.get("initial", [])] + list(p["events"].values())
+            how = [a[0] for l in lists for a in l if program.child_of(a) == int(eid)]
+            if how and how[0] != "pre":
+                p.setdefault("badsig", []).append(int(eid))
+                continue
+            pos = "before"
         i = {"before": 0, "middle": len(al) // 2, "after": len(al)}[pos]
         al.insert(i, ["fail", exc])
     return p
@@ -108,12 +118,12 @@ def generate(seed, tier, idx=0):
         prog["rep"] = [int(x) for x in prog["rep"]]
     ids = executed_ids(prog)
     if ids and rng.random() < 0.3:
-        plan = [(rng.choice(ids), rng.choice(POS), rng.choice(program.EXCS))
+        plan = [(rng.choice(ids), rng.choice(POS_RANDOM), rng.choice(program.EXCS))
                 for _ in range(rng.randint(1, 2))]
         return polling_case(rng, seed, prog, list({p[0]: p for p in plan}.values()))
     if len(ids) <= 12:
         return {"program": prog, "enumerate": True, "seed": seed}
-    plan = [(rng.choice(ids), rng.choice(POS), rng.choice(program.EXCS))
+    plan = [(rng.choice(ids), rng.choice(POS_RANDOM), rng.choice(program.EXCS))
             for _ in range(rng.randint(1, 3))]
     plan = list({p[0]: p for p in plan}.values())
     switch = (rng.choice(ids), rng.choice([1, 2, 3])) if rng.random() < 0.3 else None
@@ -189,7 +199,8 @@ def run_polling(case):
             hi = starts[k + 1]["invoke_pos"] if k + 1 < len(starts) else len(H)
             done_before = len(devscommon.executed(H, lo))
             done_after = len(devscommon.executed(H, hi))
-            if done_before < total and done_after == done_before:
+            if done_before < total and done_after == done_before \
+                    and not case["program"].get("badsig"):
                 findings.append(("resume-without-progress",
                                  "start #%d was accepted after a pause with %d of %d events "
                                  "still to run, returned normally, and nothing was executed "
@@ -216,7 +227,8 @@ def run_single(case):
         findings = []
     elif ref is not None:
         ref0 = devscommon.make_ref(case)
-        findings += lifecycle.check_stream(H, lambda rp: r.ref_time(ref0.warmup_time))
+        findings += lifecycle.check_stream(H, lambda rp: r.ref_time(ref0.warmup_time),
+                                           silent_failures=bool(case["program"].get("badsig")))
         findings += lifecycle.check_balanced_at_end(H)
         if not findings and r.final[:2] == ("ENDED", "ENDED") \
                 and r.final[2] != r.ref_time(ref.end):
